@@ -55,7 +55,17 @@ def gen(rnd):
                 t['fields'][f][1] = t['fields'][f][1] + ['_p']
             t['impure'] = ['_p']
         spec.append(t)
+    # an upstream cache layer that was explicitly allowed to cache the impure value
+    if where != 'none' and rnd.random() < 0.3:
+        spec.append({'t': 'ram', 'names': None, 'size': None, 'impure': True})
+        if rnd.random() < 0.5:
+            g = rnd.choice(FIELDS)
+            spec.append({'t': 'transform', 'fields': {g: [fresh(), [g]]}, 'params': {}, 'inherit': True})
+    # a field that sees the (possibly impure) value only through a Silent argument
     if rnd.random() < 0.25:
+        a, b = rnd.sample(FIELDS, 2)
+        spec.append({'t': 'transform', 'fields': {a: [fresh(), [a, '~' + b]]}, 'params': {}, 'inherit': True})
+    elif rnd.random() < 0.25:
         spec = [spec[0], {'t': 'chain', 'layers': spec[1:]}] if len(spec) > 2 else spec
     names = sorted(rnd.sample(FIELDS, rnd.randint(1, 3)))
     kind = rnd.choice(['ram', 'ram-all', 'disk', 'columns', 'filter', 'groupby'])
